@@ -2,6 +2,7 @@ package harness
 
 import (
 	"fmt"
+	"math"
 	"sort"
 
 	"pgregory.net/rapid"
@@ -231,10 +232,16 @@ func genWorld(t *rapid.T, o WorldOpts) *Desc {
 	if o.KeyAxes > 0 {
 		n := rapid.IntRange(0, o.KeyAxes).Draw(t, "keyAxes")
 		for i := 0; i < n; i++ {
+			// a hat, a signed stick, or an unsigned stick / lever that rests at the centre of its range
 			code := []uint16{0x10, 0x11, 0x00}[i] // ABS_HAT0X, ABS_HAT0Y, ABS_X
 			a := AxisDef{Sub: "", Code: code, Type: "key", Min: -1, Max: 1}
-			if code == 0 {
-				a.Min, a.Max = -32768, 32767
+			switch rapid.IntRange(0, 5).Draw(t, "axisShape") {
+			case 0:
+				a.Code, a.Min, a.Max = uint16(i), -32768, 32767 // ABS_X / ABS_Y
+			case 1:
+				a.Code, a.Min, a.Max = uint16(i), 0, 255
+			case 2:
+				a.Code, a.Min, a.Max = uint16(3+i), 0, 4 // five-position lever, centre 2
 			}
 			a.Note = intp(clampNote(center + rapid.SampledFrom(deltas).Draw(t, "axisNote")))
 			if rapid.Bool().Draw(t, "axisNeg") {
@@ -293,6 +300,62 @@ type histState struct {
 	spare    []uint16
 	steps    []Step
 	axisOut  map[string]bool // axes (sub/code) whose last generated position is not 0
+}
+
+// axisPos: position of a raw value as a fraction of travel, -1..1 around the rest position (0 for signed axes, the centre
+// of the range for unsigned ones).
+func axisPos(a AxisDef, v int32) float64 {
+	if a.Min < 0 {
+		if v < 0 {
+			return float64(v) / -float64(a.Min)
+		}
+		return float64(v) / float64(a.Max)
+	}
+	return 2*float64(v)/float64(a.Max) - 1
+}
+
+func axisCentre(a AxisDef) int32 {
+	if a.Min < 0 {
+		return 0
+	}
+	return (a.Min + a.Max) / 2
+}
+
+// restValue: where an axis comes to rest: a hat or a short lever exactly at its centre, a stick a few counts off it.
+func restValue(t *rapid.T, a AxisDef) int32 {
+	c := axisCentre(a)
+	if a.Max-a.Min <= 8 {
+		return c
+	}
+	return c + int32(rapid.SampledFrom([]int{0, 0, 1, 2, 3, -1, -2, -3}).Draw(t, "restsAt"))
+}
+
+// axisSample: a position of the axis: ends, around the thresholds of half travel, near the centre.
+func axisSample(t *rapid.T, a AxisDef) int32 {
+	if a.Max-a.Min <= 8 {
+		return int32(rapid.IntRange(int(a.Min), int(a.Max)).Draw(t, "lever"))
+	}
+	if rapid.IntRange(0, 3).Draw(t, "nearCentre") == 0 {
+		return restValue(t, a)
+	}
+	f := rapid.SampledFrom([]float64{-1, -0.8, -0.6, -0.51, -0.5, -0.49, -0.4, -0.1, 0.1, 0.4, 0.49, 0.5, 0.51, 0.6, 0.8, 1}).Draw(t, "travel")
+	var v float64
+	switch {
+	case a.Min < 0 && f < 0:
+		v = f * -float64(a.Min)
+	case a.Min < 0:
+		v = f * float64(a.Max)
+	default:
+		v = (f + 1) / 2 * float64(a.Max)
+	}
+	r := int32(math.Round(v))
+	if r < a.Min {
+		r = a.Min
+	}
+	if r > a.Max {
+		r = a.Max
+	}
+	return r
 }
 
 func axisKey(a AxisDef) string { return fmt.Sprintf("%s/%d", a.Sub, a.Code) }
@@ -508,26 +571,22 @@ func genHistory(t *rapid.T, d *Desc, o HistOpts) []Step {
 					h.emitKey(held[k], 0)
 				} else {
 					a := axes[out[k-len(held)]]
-					h.steps = append(h.steps, Step{T: "abs", Sub: a.Sub, Code: a.Code, Val: 0})
+					h.steps = append(h.steps, Step{T: "abs", Sub: a.Sub, Code: a.Code, Val: restValue(t, a)})
 					delete(h.axisOut, axisKey(a))
 				}
 			}
 		case kind < 97 && len(axes) > 0:
 			a := axes[rapid.IntRange(0, len(axes)-1).Draw(t, "axis")]
-			var v int32
-			if a.Max == 1 {
-				v = int32(rapid.IntRange(-1, 1).Draw(t, "hat"))
-			} else {
-				v = int32(rapid.SampledFrom([]int{-32768, -20000, -16000, -100, -3, -2, -1, 0, 0, 1, 2, 3, 100, 16000, 20000, 32767}).Draw(t, "stick"))
-			}
+			v := axisSample(t, a)
 			h.steps = append(h.steps, Step{T: "abs", Sub: a.Sub, Code: a.Code, Val: v})
-			if v != 0 {
+			out := math.Abs(axisPos(a, v)) >= 0.3
+			if out {
 				h.axisOut[axisKey(a)] = true
 			} else {
 				delete(h.axisOut, axisKey(a))
 			}
 			// an axis that was pushed comes back sooner or later: often right after the next few key events
-			if v != 0 && rapid.IntRange(0, 1).Draw(t, "axisComesBack") == 0 {
+			if out && rapid.IntRange(0, 1).Draw(t, "axisComesBack") == 0 {
 				for k := rapid.IntRange(0, 3).Draw(t, "keysMeanwhile"); k > 0 && len(actKeys)+len(h.noteKeys) > 0; k-- {
 					all := append(append([]uint16{}, h.noteKeys...), actKeys...)
 					c := all[rapid.IntRange(0, len(all)-1).Draw(t, "meanwhileKey")]
@@ -536,7 +595,7 @@ func genHistory(t *rapid.T, d *Desc, o HistOpts) []Step {
 					}
 					h.toggle(c)
 				}
-				h.steps = append(h.steps, Step{T: "abs", Sub: a.Sub, Code: a.Code, Val: 0})
+				h.steps = append(h.steps, Step{T: "abs", Sub: a.Sub, Code: a.Code, Val: restValue(t, a)})
 				delete(h.axisOut, axisKey(a))
 			}
 		case o.MidiIn:
